@@ -172,7 +172,7 @@ func runC15Sys(c c15sCase) *vlib.Outcome {
 				g.recurring = true
 				g.due = now.Truncate(2 * time.Second).Add(2 * time.Second)
 			}
-			rule := M{"schedule": sched, "action": M{"code": fmt.Sprintf("Env.record('%s', Env.Location); Env.AddFact('', {fired: '%s'}); 'ok'", tag, tag)}}
+			rule := M{"schedule": sched, "action": M{"code": fmt.Sprintf("Env.record('%s' + (location == Env.Location ? '' : '!location=' + location) + (ruleId == '%s' ? '' : '!ruleId=' + ruleId), Env.Location); Env.AddFact('', {fired: '%s'}); 'ok'", tag, x.Id, tag)}}
 			js, _ := json.Marshal(rule)
 			if _, err := s.AddRule(clientCtx(), x.Loc, x.Id, string(js)); err != nil {
 				o.Fail("ADDRULE_ERROR", "%s: %v", when, err)
